@@ -51,7 +51,7 @@ func scalarClass(s *big.Int) string {
 func runC08(c *mon.Ctx) {
 	env := GetEnv()
 	base := NewPool(c.Rand("pool"), 64)
-	nh := c.Pick(240, 4000)
+	nh := c.Pick(240, 16000)
 	for h := 0; h < nh; h++ {
 		if !c.Mine(h) {
 			continue
@@ -69,7 +69,7 @@ func runC08(c *mon.Ctx) {
 			}
 		})
 	}
-	nl := c.Pick(120, 2000)
+	nl := c.Pick(120, 8000)
 	for l := 0; l < nl; l++ {
 		if !c.Mine(l) {
 			continue
